@@ -36,6 +36,7 @@
 #include "colvarbias_alb.h"
 #include "colvarbias_abf.h"
 #include "colvarbias_meta.h"
+#include "colvarbias_histogram.h"
 #include "colvargrid.h"
 
 struct c19_session : public vsim_session {
@@ -91,6 +92,13 @@ struct c19_session : public vsim_session {
           o << " gradients=";
           for (size_t i = 0; i < a->gradients->data.size(); i++) { if (i) o << ","; o << vs_hex(a->gradients->data[i]); }
           o << "\n";
+        }
+        if (colvarbias_histogram *h = dynamic_cast<colvarbias_histogram *>(b)) {
+          if (h->grid) {
+            o << "GH " << h->name << " it=" << cvm::step_absolute() << " data=";
+            for (size_t i = 0; i < h->grid->data.size(); i++) { if (i) o << ","; o << vs_hex(h->grid->data[i]); }
+            o << "\n";
+          }
         }
         if (colvarbias_meta *m = dynamic_cast<colvarbias_meta *>(b)) {
           if (m->hills_energy) {
